@@ -282,7 +282,7 @@ func contractServes(ct *Contract, prop string, reachable bool) bool {
 	if containsStr(ct.Props, prop) || containsStr(ct.Safety, prop) {
 		return true
 	}
-	for _, l := range [][]*Clause{ct.Requires, ct.Ensures, ct.Invs, ct.Always, ct.Steps, ct.Decrs} {
+	for _, l := range [][]*Clause{ct.Requires, ct.Ensures, ct.Invs, ct.Always, ct.Steps, ct.Decrs, ct.RetReqs} {
 		for _, c := range l {
 			if containsStr(c.Props, prop) {
 				return true
@@ -390,6 +390,10 @@ func (w *World) vacuityChecks(reports []*funcReport, o checkOpts) vacResult {
 				vt := 2
 				if o.tier == "thorough" {
 					vt = 10
+				}
+				if d := os.Getenv("GOVC_DUMPVAC"); d != "" {
+					os.MkdirAll(d, 0o755)
+					os.WriteFile(filepath.Join(d, sanitize("vac-"+ob.Name)+".smt2"), []byte(q), 0o644)
 				}
 				sr := vacSolve("vac-"+ob.Name, q, vt)
 				mu.Lock()
@@ -566,11 +570,31 @@ func report(o checkOpts, w *World, reports []*funcReport, obls []*Obligation, un
 		"Go int/int64/uint64/time.Duration are 64-bit bit-vectors with wrap-around (machine arithmetic is modelled, not idealised)",
 		"SSA is built by golang.org/x/tools v0.50.0 go/ssa (go1.26.8) from the current working tree; the translation from SSA to SMT (this engine) is trusted",
 		"goroutines, channels and select have no interleaving semantics in the generator",
-		"termination is not verified (no decreases obligations)",
+		"termination is proved only for explicit for-loops under contract (loop N decreases); range loops terminate by construction; calls into dependencies are assumed to return",
 		"the repository's tests run under go1.25 while the engine type-checks with go1.26.8; behaviour of the standard-library functions under assumed contracts is taken to be the same",
 	)
 	for _, n := range w.notes {
 		assumptions = append(assumptions, n)
+	}
+	standins := []any{}
+	if o.onlyFunc == "" {
+		for _, si := range runStandins(o) {
+			standins = append(standins, si)
+			if si.Failures > 0 || si.Error != "" {
+				path := filepath.Join(replayDir, sanitize(o.prop+"-standin-"+si.Name)+".json")
+				b, _ := json.MarshalIndent(si, "", " ")
+				os.WriteFile(path, b, 0o644)
+				if si.Failures > 0 {
+					fmt.Printf("VIOLATION property=%s replay=%s bounded-stand-in=%s failing-cases=%d of %d (inputs listed in the replay file)\n", o.prop, path, si.Name, si.Failures, si.Cases)
+					exit = 1
+				} else {
+					fmt.Printf("UNDECIDED property=%s bounded stand-in %s did not run: %s\n", o.prop, si.Name, si.Error)
+					if exit == 0 {
+						exit = 2
+					}
+				}
+			}
+		}
 	}
 	cov := map[string]any{
 		"obligations":              len(obls) - len(knownHit),
@@ -588,7 +612,7 @@ func report(o checkOpts, w *World, reports []*funcReport, obls []*Obligation, un
 		"vacuity_checks":           vacN,
 		"vacuous_contexts":         vacuous,
 		"generator_notes":          notes,
-		"bounded_standins":         []any{},
+		"bounded_standins":         standins,
 	}
 	if uncovered != nil {
 		cov["reachable_functions_without_contract"] = uncovered
